@@ -301,7 +301,7 @@ def parseRep (K : BinFast.FF) (s : String) : Option (Relic.Model.Eb.Pt Nat) :=
 /-- eb_out of the model's result -/
 def outRep (K : BinFast.FF) (r : Relic.Model.Eb.Pt Nat) : String :=
   if r.z == 0 then "inf" else
-  let n := Relic.Model.Eb.norm (natBOps K) 1 r
+  let n := Relic.Model.Eb.norm (natBOps K) r
   natToHex n.x ++ "," ++ natToHex n.y ++ (if r.coord == .basic && r.z != 1 then " BASIC-WITH-Z!=1" else "")
 
 def handleCurve (e : EEnv) (cache : Cache) (w : Nat) (op : String) (args : List String) (got : String) : Option Verdict :=
@@ -322,18 +322,13 @@ def handleCurve (e : EEnv) (cache : Cache) (w : Nat) (op : String) (args : List 
     let cv : Relic.Model.Eb.CurveB Nat := { a := c.a, b := c.b, optA := optOf (e.kv.lookup "opta") }
     let pr ← parseRep K ps
     let qr ← parseRep K (if same then ps else qs)
-    -- the affine routines invert x: fb_inv(0) throws
-    let dblErr := fun (r : Relic.Model.Eb.Pt Nat) => r.z != 0 && r.x == 0
     if o == "add" || o == "add_projc" then ms (outRep K (Relic.Model.Eb.addProjc ops cv pr qr)) (fmtPoint (BinFast.add c p q)) ["model." ++ o]
     else if o == "add_basic" then
-      let err := pr.z != 0 && qr.z != 0 && pr.x == qr.x && pr.y == qr.y && dblErr pr
-      ms (if err then "err" else outRep K (Relic.Model.Eb.addBasic ops cv pr qr)) (fmtPoint (BinFast.add c p q)) ["model." ++ o]
+      ms (outRep K (Relic.Model.Eb.addBasic ops cv pr qr)) (fmtPoint (BinFast.add c p q)) ["model." ++ o]
     else if o == "sub" || o == "sub_projc" then
       ms (outRep K (Relic.Model.Eb.subProjc ops cv same pr qr)) (fmtPoint (BinFast.add c p (BinFast.neg q))) ["model." ++ o]
     else if o == "sub_basic" then
-      let nq := Relic.Model.Eb.negBasic ops qr
-      let err := !same && pr.z != 0 && nq.z != 0 && pr.x == nq.x && pr.y == nq.y && dblErr pr
-      ms (if err then "err" else outRep K (Relic.Model.Eb.subBasic ops cv same pr qr)) (fmtPoint (BinFast.add c p (BinFast.neg q))) ["model." ++ o]
+      ms (outRep K (Relic.Model.Eb.subBasic ops cv same pr qr)) (fmtPoint (BinFast.add c p (BinFast.neg q))) ["model." ++ o]
     else if o == "cmp" then cls (if p == q then "r=0" else "r=2")
     else none
   | "ebu", [o, al, ps] => do
@@ -344,12 +339,11 @@ def handleCurve (e : EEnv) (cache : Cache) (w : Nat) (op : String) (args : List 
     let pr := prO.getD ⟨0, 0, 0, .basic⟩
     if o == "dbl" || o == "dbl_projc" then ms (outRep K (Relic.Model.Eb.dblProjc ops cv pr)) (fmtPoint (BinFast.dbl c p)) ["model." ++ o]
     else if o == "dbl_basic" then
-      ms (if pr.z != 0 && pr.x == 0 then "err" else outRep K (Relic.Model.Eb.dblBasic ops cv pr)) (fmtPoint (BinFast.dbl c p)) ["model." ++ o]
+      ms (outRep K (Relic.Model.Eb.dblBasic ops cv pr)) (fmtPoint (BinFast.dbl c p)) ["model." ++ o]
     else if o == "neg" || o == "neg_projc" then ms (outRep K (Relic.Model.Eb.negProjc ops pr)) (fmtPoint (BinFast.neg p)) ["model." ++ o]
     else if o == "neg_basic" then ms (outRep K (Relic.Model.Eb.negBasic ops pr)) (fmtPoint (BinFast.neg p)) ["model." ++ o]
     else if o == "norm" then
-      -- the result object of the oracle starts as the identity (z = 0) unless it is the operand itself
-      let r := Relic.Model.Eb.norm ops (if al == "1" then pr.z else 0) pr
+      let r := Relic.Model.Eb.norm ops pr
       ms (if r.z == 0 then "inf" else natToHex r.x ++ "," ++ natToHex r.y ++ (if r.z != 1 then " BASIC-WITH-Z!=1" else "")) (fmtPoint p) ["model.norm"]
     else if o == "frb" then ms (outRep K (Relic.Model.Eb.frb ops pr)) (fmtPoint (BinFast.frb c p)) ["model.frb"]
     else if o == "on_curve" then cls ("r=" ++ (if BinFast.onCurve c p then "1" else "0"))
@@ -365,8 +359,10 @@ def handleCurve (e : EEnv) (cache : Cache) (w : Nat) (op : String) (args : List 
         else pred got true "" ["hlv.notin2E"]
       | none, some Q =>
         -- the representation flag of an identity result is immaterial
-        pred got (BinFast.onCurve c Q && BinFast.dbl c Q == none && (got == fmtPoint Q ++ " coord=3" || (Q == none && got.startsWith "inf")))
-          "<Q with 2Q = O>" ["hlv.inf"]
+        let hr := Relic.Model.Eb.hlv ops cv pr
+        mpred (outRep K hr ++ (if hr.z == 0 then " coord=1" else " coord=3")) got
+          (BinFast.onCurve c Q && BinFast.dbl c Q == none && (got == fmtPoint Q ++ " coord=3" || (Q == none && got.startsWith "inf")))
+          "<Q with 2Q = O>" ["hlv.inf", "model.hlv"]
       | _, none => pred got false "<Q on the curve with 2Q = P>"
     else if o == "pck" then
       match p with
@@ -397,8 +393,7 @@ def handleCurve (e : EEnv) (cache : Cache) (w : Nat) (op : String) (args : List 
     let k := if v == "dig" then ((k.natAbs % 2 ^ w : Nat) : Int) else k
     let spec := fmtPoint (mulC p k)
     -- model column: the loops of Model/MulAlg.lean, Model/EbMul.lean with the recodings of Model/Rec.lean, Model/Tnaf.lean over
-    -- the affine group law (for an operand the routine reads as affine coordinates)
-    let affineTok := (ptk.splitOn ",").length ≤ 2
+    -- the affine group law (every routine normalises its operand or works in coordinates that accept it)
     let go : Relic.Model.MulAlg.Ops Point := ⟨none, BinFast.add c, BinFast.neg⟩
     let frbP := BinFast.frb c
     let u : Int := if c.a == 0 then -1 else 1
@@ -409,8 +404,11 @@ def handleCurve (e : EEnv) (cache : Cache) (w : Nat) (op : String) (args : List 
     let width := ((e.kv.lookup "width").bind String.toNat?).getD 4
     let depth := ((e.kv.lookup "depth").bind String.toNat?).getD 5
     let trivial := k == 0 || p == none
+    -- the Koblitz routines reduce |k| modulo the group order h·r, lodah and the fixed-base tables modulo r
+    let kG := kn % (e.h * e.r)
+    let kR := kn % e.r
     let model : Option String :=
-      if !(affineTok || v == "gen") || !(width == 4 && depth == 5) then none
+      if !(width == 4 && depth == 5) then none
       else if v == "basic" then
         if trivial then some "inf" else
         (Relic.Model.Rec.recNaf (bitLen kn + 1) kn 2).map fun ds => fmtPoint (sgn (Relic.Model.MulAlg.mulSigned go [p] none ds))
@@ -419,10 +417,10 @@ def handleCurve (e : EEnv) (cache : Cache) (w : Nat) (op : String) (args : List 
         if v != "fix_lwnaf" && trivial then some "inf"
         else if k == 0 then some "inf"
         else if e.kbltz then
-          match Relic.Model.Tnaf.recTnaf (m + 8) kn u m wd with
+          match Relic.Model.Tnaf.recTnaf (m + 8) kG u m wd with
           | none => some "err"
           | some ds =>
-            if ds.length > m + 8 then none     -- the digits overflowed the caller's array (finding C16-15): no prediction
+            if ds.length > m + 8 then none
             else
               let tab := if wd == 4 then Relic.Model.EbMul.tabKbltz4 go frbP u p else Relic.Model.EbMul.tabKbltz5 go frbP u p
               some (fmtPoint (sgn (Relic.Model.EbMul.mulTnaf go frbP tab none ds)))
@@ -433,7 +431,7 @@ def handleCurve (e : EEnv) (cache : Cache) (w : Nat) (op : String) (args : List 
       else if v == "rwnaf" then
         if trivial then some "inf"
         else if e.kbltz then
-          match Relic.Model.Tnaf.recTnaf (m + 8) kn u m 4 with
+          match Relic.Model.Tnaf.recTnaf (m + 8) kG u m 4 with
           | none => some "err"
           | some ds => if ds.length > m + 8 then none else some (fmtPoint (sgn (Relic.Model.EbMul.mulTnafRtl4 go frbP u p ds)))
         else
@@ -441,20 +439,19 @@ def handleCurve (e : EEnv) (cache : Cache) (w : Nat) (op : String) (args : List 
           | none => some "err"
           | some ds => some (fmtPoint (sgn (Relic.Model.EbMul.mulRnaf4 go p ds)))
       else if v == "lodah" then
-        if k == 0 then some "inf"
-        else if p == none then none        -- finding C16-11
+        if trivial then some "inf"
         else
-          let t := kn + e.r
+          let t := kR + e.r
           let l := if t.testBit rbits then t else t + e.r
           let bits := (List.range rbits).reverse.map fun i => l.testBit i
           some (fmtPoint (sgn (Relic.Model.MulAlg.mulLadder go p bits)))
       else if v == "fix_basic" then
         if k == 0 then some "inf" else
-        some (fmtPoint (sgn (Relic.Model.MulAlg.mulFixBasic go (Relic.Model.MulAlg.tabPow2 go p rbits) none kn)))
+        some (fmtPoint (sgn (Relic.Model.MulAlg.mulFixBasic go (Relic.Model.MulAlg.tabPow2 go p rbits) none kR)))
       else if v == "fix_combs" || v == "fix_" || v == "gen" then
         if k == 0 then some "inf" else
         let l := (rbits + depth - 1) / depth
-        some (fmtPoint (sgn (Relic.Model.EbMul.mulCombs go (Relic.Model.EbMul.tabCombs go p l depth) kn l depth)))
+        some (fmtPoint (sgn (Relic.Model.EbMul.mulCombs go (Relic.Model.EbMul.tabCombs go p l depth) kR l depth)))
       else none
     match model with
     | some mdl => ms mdl spec ["model.mul." ++ v]
